@@ -316,6 +316,20 @@ let cmd_hier (args : string list) : string =
     hierarchy_obs b ^ " lk=" ^ queries_obs b queries
   | _ -> "BADCASE"
 
+
+(* ---- detect <hexbytes> ---- *)
+let cmd_detect (args : string list) : string =
+  match args with
+  | [input] ->
+    (match Detect.detect !debug (bytes_of_hex input) with
+     | Detect.DFormat Detect.FVcd -> "vcd"
+     | Detect.DFormat Detect.FFst -> "fst"
+     | Detect.DFormat Detect.FGhw -> "ghw"
+     | Detect.DFormat Detect.FUnknown -> "unknown"
+     | Detect.DPanic -> "PANIC"
+     | Detect.DHang -> "HANG")
+  | _ -> "BADCASE"
+
 let dispatch (cmd : string) (args : string list) : string =
   match cmd with
   | "offsets" -> cmd_offsets args
@@ -323,6 +337,7 @@ let dispatch (cmd : string) (args : string list) : string =
   | "body" -> cmd_body args
   | "fstw" -> cmd_fstw args
   | "hier" -> cmd_hier args
+  | "detect" -> cmd_detect args
   | "vcd" -> cmd_vcd args
   | _ -> "UNSUPPORTED"
 
